@@ -300,6 +300,10 @@ def run_property(prop_mod_name, tier, replay=None):
     seed_value = int(os.environ.get("VERIF_SEED", "1") or "1")
     shards = int(os.environ.get("VERIF_SHARDS", "16" if tier == "thorough" else "1"))
     scale = float(os.environ.get("VERIF_SCALE", "1"))
+    if tier == "thorough":
+        # the per-sub counts in props/*.py are the 1x budget (1-3 min per property on 16 cores);
+        # thorough runs three times that unless told otherwise
+        scale *= float(os.environ.get("VERIF_THOROUGH_SCALE", "3"))
     subs = mod.subchecks(tier)
     by_name = {s.name: s for s in subs}
     allstats = {s.name: Stats(s.name) for s in subs}
